@@ -3,36 +3,36 @@ set -e
 . $MC/par.sh
 H=$VERIF/harness/c04
 CF="-O1 -g -fsanitize=address -fno-omit-frame-pointer -I$REPO -I$MC -I$H"
-par clang++ -std=c++17 -c $CF $H/c04_roundtrip.cpp -o $BUILD/h.o
+par clang++ -std=c++20 -c $CF $H/c04_roundtrip.cpp -o $BUILD/h.o
 # C04 observes the receiver through its public API only (init, newchar, size(), cstr()): no private member is named
-par clang++ -std=c++17 -c $CF -DGS_PUBLIC_ONLY $H/gs_bind_cfg.cpp -o $BUILD/bind_cfg.o
-par clang++ -std=c++17 -c $CF $H/gs_bind_legacy.cpp -o $BUILD/bind_legacy.o
-par clang++ -std=c++17 -c $CF $REPO/igris/protocols/gstuff.cpp -o $BUILD/gstuff.o
+par clang++ -std=c++20 -c $CF -DGS_PUBLIC_ONLY $H/gs_bind_cfg.cpp -o $BUILD/bind_cfg.o
+par clang++ -std=c++20 -c $CF $H/gs_bind_legacy.cpp -o $BUILD/bind_legacy.o
+par clang++ -std=c++20 -c $CF $REPO/igris/protocols/gstuff.cpp -o $BUILD/gstuff.o
 par clang -c $CF $REPO/igris/protocols/gstuff_v1/gstuff.c -o $BUILD/gstuff_v1.o
 par clang -c $CF $REPO/igris/protocols/gstuff_v1/autorecv.c -o $BUILD/autorecv_v1.o
-par clang++ -std=c++17 -O2 -c -I$MC $MC/mc.cpp -o $BUILD/mc.o
+par clang++ -std=c++20 -O2 -c -I$MC $MC/mc.cpp -o $BUILD/mc.o
 # release-mode variant: the other compiler at -O2 with -DNDEBUG (an assert that carries a side effect vanishes), ASan;
 # re-runs a cheap selection of the round-trip sub-checks
 N=$BUILD/ndebug; mkdir -p $N
 NF="-O2 -g -DNDEBUG -fsanitize=address -fno-omit-frame-pointer -I$REPO -I$MC -I$H"
-par g++ -std=c++17 -c $NF $H/c04_roundtrip.cpp -o $N/h.o
-par g++ -std=c++17 -c $NF -DGS_PUBLIC_ONLY $H/gs_bind_cfg.cpp -o $N/bind_cfg.o
-par g++ -std=c++17 -c $NF $H/gs_bind_legacy.cpp -o $N/bind_legacy.o
-par g++ -std=c++17 -c $NF $REPO/igris/protocols/gstuff.cpp -o $N/gstuff.o
+par g++ -std=c++20 -c $NF $H/c04_roundtrip.cpp -o $N/h.o
+par g++ -std=c++20 -c $NF -DGS_PUBLIC_ONLY $H/gs_bind_cfg.cpp -o $N/bind_cfg.o
+par g++ -std=c++20 -c $NF $H/gs_bind_legacy.cpp -o $N/bind_legacy.o
+par g++ -std=c++20 -c $NF $REPO/igris/protocols/gstuff.cpp -o $N/gstuff.o
 par gcc -c $NF $REPO/igris/protocols/gstuff_v1/gstuff.c -o $N/gstuff_v1.o
 par gcc -c $NF $REPO/igris/protocols/gstuff_v1/autorecv.c -o $N/autorecv_v1.o
 # re-entrancy run: the same bindings and library sources under ThreadSanitizer, two threads on the controlled scheduler
 # (sched.cpp and mc.cpp stay uninstrumented: TSan then sees only what the code under test does)
 T=$BUILD/tsan; mkdir -p $T
 TF="-O1 -g -fsanitize=thread -fno-omit-frame-pointer -I$REPO -I$MC -I$H"
-par g++ -std=c++17 -c $TF $H/c04_reentrancy.cpp -o $T/h.o
-par g++ -std=c++17 -c $TF -DGS_PUBLIC_ONLY $H/gs_bind_cfg.cpp -o $T/bind_cfg.o
-par g++ -std=c++17 -c $TF $H/gs_bind_legacy.cpp -o $T/bind_legacy.o
-par g++ -std=c++17 -c $TF $REPO/igris/protocols/gstuff.cpp -o $T/gstuff.o
+par g++ -std=c++20 -c $TF $H/c04_reentrancy.cpp -o $T/h.o
+par g++ -std=c++20 -c $TF -DGS_PUBLIC_ONLY $H/gs_bind_cfg.cpp -o $T/bind_cfg.o
+par g++ -std=c++20 -c $TF $H/gs_bind_legacy.cpp -o $T/bind_legacy.o
+par g++ -std=c++20 -c $TF $REPO/igris/protocols/gstuff.cpp -o $T/gstuff.o
 par gcc -c $TF $REPO/igris/protocols/gstuff_v1/gstuff.c -o $T/gstuff_v1.o
 par gcc -c $TF $REPO/igris/protocols/gstuff_v1/autorecv.c -o $T/autorecv_v1.o
-par g++ -std=c++17 -O2 -g -I$MC -c $MC/sched/sched.cpp -o $BUILD/sched.o
-par g++ -std=c++17 -O2 -I$MC -c $MC/mc.cpp -o $BUILD/mc_gcc.o
+par g++ -std=c++20 -O2 -g -I$MC -c $MC/sched/sched.cpp -o $BUILD/sched.o
+par g++ -std=c++20 -O2 -I$MC -c $MC/mc.cpp -o $BUILD/mc_gcc.o
 parwait
 g++ -fsanitize=thread $T/h.o $T/bind_cfg.o $T/bind_legacy.o $T/gstuff.o $T/gstuff_v1.o $T/autorecv_v1.o $BUILD/sched.o $BUILD/mc_gcc.o \
     -ldl -lpthread -o $BUILD/c04_tsan
